@@ -520,7 +520,8 @@ def install():
     _wrap_method(ResultsAggregator, "_append_result", after=after_append_inner)
 
     def after_cancel_job(args, kw, res, exc):
-        VC.emit("sub_cancel", job=args[1].name)
+        if exc is None:
+            VC.emit("sub_cancel", job=args[1].name)
     _wrap_method(hs.HpcSubmitter, "_cancel_job", after=after_cancel_job)
 
     def after_is_complete(args, kw, res, exc):
